@@ -123,6 +123,10 @@ Keep == LET n == Cardinality(CCols)
             eh == IF elig.given THEN Fold([g \in AllGeos |-> elig.row[g]], 1, 11) ELSE 5
             h == Mix(HashCells(cells), eh)
         IN IF n > 1 /\ (h \div 3) % 3 = 0 THEN 1 + (h % (n - 1)) ELSE 0
+\* ... and on half of those the caller had already fixed a geo index (all assignable geos in row order) and read the
+\* aggregates BEFORE the cut: whatever was derived then must not survive the cut
+PreIdx == LET eh == IF elig.given THEN Fold([g \in AllGeos |-> elig.row[g]], 1, 11) ELSE 5
+          IN Keep > 0 /\ (Mix(HashCells(cells), eh) \div 7) % 2 = 0
 CWinSeq == IF Keep = 0 THEN CColSeq ELSE SubSeq(CColSeq, Len(CColSeq) - Keep + 1, Len(CColSeq))
 CAggTS(o, S) == LET cs == CWinSeq IN [k \in 1..Len(cs) |-> SumFn(S, [p \in S |-> CCell(o[p + 1], cs[k])])]
 CAggShare(o, S) == <<SumFn(S, [p \in S |-> CTotal(o[p + 1])]), CGrand>>
@@ -224,9 +228,19 @@ Reconcile ==
                 /\ pc' = "ready"
   /\ UNCHANGED <<cells, dtype, elig, rows, cols, tbl, means, rowOrder, share, order, arr, arrShare, gassign, agg>>
 
+\* the setter called once before the cut (the arrays are built from ALL columns present then)
+PreSetGeoIndex ==
+  /\ pc = "ready" /\ PreIdx /\ assignable # {} /\ arr = None /\ Len(cols) > Keep
+  /\ LET o == SelectSeq(rowOrder, LAMBDA g : g \in assignable)
+     IN /\ order' = o
+        /\ arr' = [p \in 1..Len(o) |-> [k \in 1..Len(cols) |-> tbl[<<o[p], cols[k]>>]]]
+        /\ arrShare' = [p \in 1..Len(o) |-> share[o[p]]]
+  /\ UNCHANGED <<cells, dtype, elig, pc, rows, cols, tbl, means, rowOrder, share, recon, assignable, gassign, agg>>
+
 \* data.df = data.df.iloc[:, -n_pretest_max:]   (tbrmatchedmarkets.py:69; the caller of the setter below)
 Restrict ==
   /\ pc = "ready"
+  /\ ((PreIdx /\ assignable # {}) => arr # None)
   /\ Keep > 0 /\ Len(cols) > Keep
   /\ cols' = SubSeq(cols, Len(cols) - Keep + 1, Len(cols))
   /\ UNCHANGED <<cells, dtype, elig, pc, rows, tbl, means, rowOrder, share, recon, assignable, order, arr, arrShare,
@@ -266,7 +280,7 @@ Aggregate ==
   /\ pc' = "done"
   /\ UNCHANGED <<cells, dtype, elig, rows, cols, tbl, means, rowOrder, share, recon, assignable, order, arr, arrShare, gassign>>
 
-Next == Pivot \/ Means \/ Order \/ Shares \/ Reconcile \/ Restrict \/ SetGeoIndex \/ Aggregate
+Next == Pivot \/ Means \/ Order \/ Shares \/ Reconcile \/ PreSetGeoIndex \/ Restrict \/ SetGeoIndex \/ Aggregate
 Spec == Init /\ [][Next]_vars /\ WF_vars(Next)
 
 \* ---------------------------------------------------------------- properties
@@ -350,6 +364,7 @@ CaseRecord ==
       rows |-> rs,
       cols |-> cs,
       keep |-> Keep,
+      preidx |-> (PreIdx /\ CAssignable # {}),
       win |-> CWinSeq,
       table |-> [i \in 1..Len(rs) |-> [k \in 1..Len(cs) |-> CCell(rs[i], cs[k])]],
       totals |-> [i \in 1..Len(rs) |-> CTotal(rs[i])],
